@@ -20,6 +20,7 @@ import (
 	"github.com/privacybydesign/gabi/big"
 	"github.com/privacybydesign/gabi/internal/verif/vkit"
 	"github.com/privacybydesign/gabi/internal/verif/vsched"
+	"github.com/privacybydesign/gabi/safeprime"
 )
 
 func c16Prime(n int64) bool {
@@ -187,6 +188,104 @@ func TestVerifC16Stop(t *testing.T) {
 			}
 			if !res.Complete {
 				r.Cap(fmt.Sprintf("workers=%d stream %q: %s after %d executions", workers, st.name, res.Cap, res.Executions))
+			}
+		}
+	}
+}
+
+// TestVerifC16StopDrain: safeprime.GenerateConcurrent with a consumer of the harness's own: it takes the
+// first result, closes stop and leaves.  The random source then only yields composites, so the remaining
+// workers are inside Generate when the stop arrives and come back empty-handed.  At quiescence the result
+// channel is drained: everything a worker ever put there must be a safe prime of the requested size - a
+// worker that has been told to stop has nothing to deliver.
+func TestVerifC16StopDrain(t *testing.T) {
+	prop := vkit.PropertyOr("C16") // also a unit of C20 (results of parallel generation)
+	r := vkit.Start(t, prop, "stop-protocol-drain", 200*time.Second, 900*time.Second)
+	defer r.Finish()
+	r.Rule = "safeprime.GenerateConcurrent(16 bits) with 2 workers (thorough: and 3); random source = 1 or 2 scripted safe primes followed by composites only; consumer takes one result, closes stop, leaves; every interleaving of the instrumented channel operations with <= B preemptions (select among ready cases is a data choice; spinning workers are cut by the step horizon); non-trivial = distinct (workers, stream, schedule); oracle: no panic, no thread left blocked, and at quiescence every value in the result channel is a non-nil 16-bit safe prime"
+	bound := vkit.Pick(1, 2)
+	r.Bounds["max_preemptions"] = bound
+	prevR := rand.Reader
+	defer func() { rand.Reader = prevR }()
+	prevP := runtime.GOMAXPROCS(0)
+	defer runtime.GOMAXPROCS(prevP)
+	cl := c16Classes()
+	a3, c5 := cl["q3"][0], cl["q5"][0]
+	deadline := time.Now().Add(time.Duration(r.Bounds["budget_s"].(float64)) * time.Second)
+	for _, workers := range vkit.Pick([]int{2}, []int{2, 3}) {
+		for si, script := range [][]int64{{a3}, {a3, c5}} {
+			runtime.GOMAXPROCS(workers)
+			var ints <-chan *big.Int
+			var first *big.Int
+			var gotErr error
+			fresh := func() vsched.Scenario {
+				rand.Reader = &c16Reader{script: append([]int64{}, script...), tail: []int64{9, 15, 21}}
+				ints, first, gotErr = nil, nil, nil
+				return vsched.Scenario{Body: func() {
+					stop := make(chan struct{})
+					var errs <-chan error
+					ints, errs = safeprime.GenerateConcurrent(16, stop)
+					switch vsched.Select(false, vsched.R(ints), vsched.R(errs)) {
+					case 0:
+						first = <-ints
+					case 1:
+						gotErr = <-errs
+					}
+					vsched.Close(stop)
+					close(stop)
+				}, Check: func(x *vsched.Exec) {
+					r.Eval()
+					r.Nontrivial(fmt.Sprintf("drain|%d|%d|%v", workers, si, x.Choices))
+					if x.Horizon {
+						r.Outcome("horizon (a worker spins while the consumer is not scheduled: cut, not judged)")
+						return
+					}
+					sig, detail := "", ""
+					switch {
+					case len(x.Panics) > 0:
+						sig, detail = "panic", strings.Join(x.Panics, "; ")
+					case x.Deadlock:
+						sig, detail = "worker-left-running", strings.Join(x.Blocked, "; ")
+					case gotErr != nil:
+						sig, detail = "unexpected-error", gotErr.Error()
+					default:
+						vals := []*big.Int{first}
+					drain:
+						for {
+							select {
+							case v := <-ints:
+								vals = append(vals, v)
+							default:
+								break drain
+							}
+						}
+						for i, v := range vals {
+							if v == nil {
+								sig, detail = "nil-on-the-result-channel", fmt.Sprintf("value %d of %d delivered by the workers is nil", i, len(vals))
+							} else if v.BitLen() != 16 || !c16Prime(v.Int64()) || !c16Prime(v.Int64()/2) {
+								sig, detail = "not-a-safe-prime-on-the-result-channel", v.String()
+							}
+						}
+						r.Outcome(fmt.Sprintf("values delivered=%d", len(vals)))
+					}
+					if sig != "" {
+						r.Outcome(sig)
+						r.Violate(prop+"|stop-protocol|"+sig, fmt.Sprintf("workers=%d script=%v schedule=%v: %s", workers, script, x.Choices, detail), map[string]any{"workers": workers, "script": script, "choices": x.Choices})
+					}
+				}}
+			}
+			res := vsched.Explore(vsched.Options{MaxPreemptions: bound, Deadline: deadline, Shard: r.Shard, Shards: r.Shards, MaxSteps: 40}, fresh)
+			r.Schedules += int64(res.Executions)
+			r.States += res.Points + res.DataPoints
+			r.Transitions += res.Points + res.DataPoints
+			r.Traces += int64(res.Executions)
+			r.Sample(map[string]any{"drain": true, "workers": workers, "script": script, "executions": res.Executions, "horizon_cuts": res.Horizons, "complete": res.Complete})
+			if res.Diverged != "" {
+				r.HarnessError("drain workers=%d: %s", workers, res.Diverged)
+				return
+			}
+			if !res.Complete {
+				r.Cap(fmt.Sprintf("drain workers=%d script %v: %s after %d executions", workers, script, res.Cap, res.Executions))
 			}
 		}
 	}
